@@ -1003,6 +1003,13 @@ func (s *scanner) PeekN(n int) ([]byte, error) {
 	}
 
 	if s.pos+n > s.used {
+		if err == nil {
+			// A refill which received some data together with a read error
+			// latches the error and reports success.  If the data is still
+			// too short, the latched error - not the end of the input - is
+			// the reason.
+			err = s.err
+		}
 		return s.buf[s.pos:s.used], err
 	}
 
